@@ -17,11 +17,13 @@
           prefix (nameKey absent) or prefix+"."+inputs[nameKey] (a string, else permFail), the resource id
           is {"fn":id,"name":name} and the API requests are calls.map (· ++ " " ++ name)
     EV    [label] | [label, index]
+    "nschedule":[NEV..]?   NEV = EV | {"in":[label, index|null],"ev":NEV}   (answer field "nasync", like "async")
   answer   {"steps":[[label,RES,rid]..],"overall":RES,"state":V,"stateErrors":[s..],
             "conditions":[[type,reason,status]..],"resourceIds":V,"calls":[CALL..],"wf":bool,"async":{…}|null|absent}
 -/
 import Driver.Wire
 import Koreo.Workflow
+import Koreo.WorkflowNested
 namespace Koreo.Driver.WorkflowWire
 open MiniJson Koreo Koreo.Workflow Koreo.Wire
 
@@ -187,6 +189,17 @@ def toEvent (j : J) : Except String Event :=
   | .arr [.str l, .num i] => pure (.item l i.toNat)
   | _ => throw "bad event"
 
+/-- NEV  =  EV | {"in":[label, index|null], "ev":NEV} -/
+partial def toNEvent (j : J) : Except String NEvent :=
+  match j.get? "in", j.get? "ev" with
+  | some (.arr [.str l, idx]), some e => do
+    let i ← match idx with
+      | .null => pure none
+      | .num k => pure (some k.toNat)
+      | _ => throw "bad frame index"
+    pure (.inside l i (← toNEvent e))
+  | _, _ => do pure (.here (← toEvent j))
+
 def handle (j : J) : Except String J := do
   let op ← j.getStr "op"
   if op != "reconcile" then throw s!"bad op {op}"
@@ -207,6 +220,17 @@ def handle (j : J) : Except String J := do
     [("calls", .arr (tr.calls.map ofCall)),
      ("api", .arr ((tr.calls.flatMap (·.api)).map .str)),
      ("wf", .bool (defs.all (·.WF)))]
+  -- a nested schedule (inner events of sub-workflows interleaved): replayed through `nrunEvents`
+  let base ← match optField j "nschedule" with
+    | some (.arr evs) => do
+      let σ ← evs.mapM toNEvent
+      let a := match nrunEvents evalStd (runOf fns) env defs.length wf trig σ .empty with
+        | none => J.null
+        | some st =>
+          .obj (ofResult (collect evalStd wf st.top.done) ++
+                [("complete", .bool (wf.steps.all fun s => isDone st.top s.label))])
+      pure (base ++ [("nasync", a)])
+    | _ => pure base
   match optField j "schedule" with
   | none => pure (.obj base)
   | some (.arr evs) => do
